@@ -121,6 +121,57 @@ MATCH_FIELDS = ("in_port", "dl_src", "dl_dst", "dl_vlan", "dl_vlan_pcp",
                 "tp_src", "tp_dst")
 
 
+def ignored_fields_cleared(m):
+  """
+  The other legal wire form of match m: fields whose protocol prerequisite is
+  not met (nw_* unless dl_type is IPv4 or ARP, tp_* unless IPv4 with
+  TCP/UDP/ICMP, nw_tos unless IPv4) "don't need to be wildcarded and should
+  be set to 0" -- returns the wildcard word with those bits cleared.  Only
+  fields absent from m are touched.  (This is also the form pox's own
+  encoder produces.)
+  """
+  w = match_wildcards(m)
+  dt = m.get("dl_type")
+  ign = []
+  if dt == 0x0800:
+    if m.get("nw_proto") not in (1, 6, 17):
+      ign = ["tp_src", "tp_dst"]
+  elif dt == 0x0806:
+    ign = ["tp_src", "tp_dst", "nw_tos"]
+  else:
+    ign = ["tp_src", "tp_dst", "nw_tos", "nw_proto", "nw_src", "nw_dst"]
+  bit = {"tp_src": FW_TP_SRC, "tp_dst": FW_TP_DST, "nw_tos": FW_NW_TOS,
+         "nw_proto": FW_NW_PROTO}
+  for f in ign:
+    if f in m:
+      continue
+    if f in bit:
+      w &= ~bit[f]
+    elif f == "nw_src":
+      w &= ~(0x3f << FW_NW_SRC_SHIFT)
+    else:
+      w &= ~(0x3f << FW_NW_DST_SHIFT)
+  return w & 0xffffffff
+
+
+def match_wildcards(m):
+  w = 0
+  if "in_port" not in m: w |= FW_IN_PORT
+  if "dl_vlan" not in m: w |= FW_DL_VLAN
+  if "dl_src" not in m: w |= FW_DL_SRC
+  if "dl_dst" not in m: w |= FW_DL_DST
+  if "dl_type" not in m: w |= FW_DL_TYPE
+  if "nw_proto" not in m: w |= FW_NW_PROTO
+  if "tp_src" not in m: w |= FW_TP_SRC
+  if "tp_dst" not in m: w |= FW_TP_DST
+  if "dl_vlan_pcp" not in m: w |= FW_DL_VLAN_PCP
+  if "nw_tos" not in m: w |= FW_NW_TOS
+  sb = m.get("nw_src_bits", 0 if "nw_src" in m else 32)
+  db = m.get("nw_dst_bits", 0 if "nw_dst" in m else 32)
+  w |= (min(sb, 63) << FW_NW_SRC_SHIFT) | (min(db, 63) << FW_NW_DST_SHIFT)
+  return w
+
+
 def enc_match(m):
   """
   m: dict with optional keys in MATCH_FIELDS plus nw_src_bits / nw_dst_bits
